@@ -164,7 +164,7 @@ def handleSocketError (e : Option Nat) (w : World) : World :=
   else { w with eagains := w.eagains + 1 }
 
 /-- `SocketDriver.die()` as far as this model sees it. -/
-def driverDie (w : World) : World := { w with zombie := true, removed := true }
+def driverDie (w : World) : World := { w with zombie := true, removed := true, reconnectAt := false }
 
 /-- the `takeMsg()` loop of `_sendIfMsgs`: all queued messages; a zombie Irc whose queues are
 empty kills the driver (`self.driver.die()`) from inside `takeMsg`. -/
@@ -185,12 +185,18 @@ def doSend (w : World) : World :=
 /-- `_reallyDie()` -/
 def reallyDie (w : World) : World := { w with sockClosed := true, removed := true }
 
+/-- `if not self.zombie:` the `takeMsg()` loop -/
+def sendTake (w : World) : World := if w.zombie then w else takeAll w
+
+/-- `if self.outbuffer:` one `send()` -/
+def sendFlush (w : World) : World := if w.outbuffer = [] then w else doSend w
+
+/-- `if self.zombie and not self.outbuffer: self._reallyDie()` -/
+def sendFinish (w : World) : World := if w.zombie && w.outbuffer = [] then reallyDie w else w
+
 /-- `SocketDriver._sendIfMsgs()` -/
 def sendIfMsgs (w : World) : World :=
-  if !w.connected then w else
-  let w1 := if w.zombie then w else takeAll w
-  let w2 := if w1.outbuffer = [] then w1 else doSend w1
-  if w2.zombie && w2.outbuffer = [] then reallyDie w2 else w2
+  if !w.connected then w else sendFinish (sendFlush (sendTake w))
 
 /-! ### read side -/
 
@@ -230,24 +236,30 @@ def read (env : Env) (w : World) : World :=
 
 /-! ### `SocketDriver.run()` / `_select()` / `drivers.run()` -/
 
-/-- `_select()` for the only instance: readable iff a `recv()` outcome is scripted -/
+/-- `for instance in cls._instances: if instance.conn in rlist: instance._read()`:
+readable iff a `recv()` outcome is scripted -/
+def selectRead (env : Env) (w : World) : World := if w.recvScript = [] then w else read env w
+
+/-- the final `for instance in cls._instances` loop of `_select` (`_handleSocketError` and
+`die()` remove the instance from `_instances`; an exception in `_read` skips it) -/
+def selectSend (w : World) : World :=
+  if w.crashed.isSome then w
+  else if !w.connected || w.zombie || w.ircZombie then w else sendIfMsgs w
+
+/-- `_select()` for the only instance (`_instances` holds it iff connected and `die()` was not called) -/
 def select (env : Env) (w : World) : World :=
-  -- `for inst in cls._instances: if not inst.connected: remove`; `die()` removed it as well
-  if !w.connected || w.zombie then w else
-  let w1 := if w.recvScript = [] then w else read env w
-  if w1.crashed.isSome then w1
-  -- the final `for instance in cls._instances` loop (handleSocketError / die() removed it)
-  else if !w1.connected || w1.zombie || w1.ircZombie then w1 else sendIfMsgs w1
+  if !w.connected || w.zombie then w else selectSend (selectRead env w)
 
 /-- `SocketDriver.run()` (no reconnect / write-check timers pending) -/
 def run (env : Env) (w : World) : World :=
   if !w.connected then w else select env (sendIfMsgs w)
 
+/-- `except: log.exception(...); _deadDrivers.add(name)` -/
+def loopCatch (w : World) : World := if w.crashed.isSome then { w with removed := true } else w
+
 /-- what one pass of `drivers.run()` does with this driver -/
 def loop (env : Env) (w : World) : World :=
-  if w.removed then w else
-  let w1 := run env w
-  if w1.crashed.isSome then { w1 with removed := true } else w1
+  if w.removed then w else loopCatch (run env w)
 
 /-! ### operations (the alphabet of histories) -/
 
@@ -257,8 +269,6 @@ inductive Op where
   | scriptRecv (r : RecvRes)    -- environment: outcome of a future `recv()`
   | ircDie                      -- `Irc.die()` (connected Irc: becomes a zombie)
   | loop                        -- one pass of `drivers.run()`
-  | sendIfMsgs                  -- direct `driver._sendIfMsgs()`
-  | read                        -- direct `driver._read()`
 deriving DecidableEq, Repr
 
 def step (env : Env) (w : World) : Op → World
@@ -269,8 +279,6 @@ def step (env : Env) (w : World) : Op → World
   | .scriptRecv r => { w with recvScript := w.recvScript ++ [r] }
   | .ircDie => { w with ircZombie := true }
   | .loop => loop env w
-  | .sendIfMsgs => sendIfMsgs w
-  | .read => read env w
 
 def runOps (env : Env) (w : World) (ops : List Op) : World := ops.foldl (step env) w
 
